@@ -53,7 +53,7 @@ def build_native(outdir, repo_sources, harness, extra_cpp=(), defines=(), saniti
     os.makedirs(outdir, exist_ok=True)
     cache = os.environ.get('VP_CACHE', '/tmp/vp_cache')
     os.makedirs(cache, exist_ok=True)
-    san = ['-fsanitize=address,undefined', '-fno-sanitize=signed-integer-overflow,shift-base,shift-exponent,alignment', '-fno-sanitize-recover=undefined', '-fno-omit-frame-pointer'] if sanitize else []
+    san = ['-fsanitize=address,undefined', '-fno-sanitize=signed-integer-overflow,shift-base,shift-exponent,alignment,bool', '-fno-sanitize-recover=undefined', '-fno-omit-frame-pointer'] if sanitize else []
     base = ['g++'] + CXXFLAGS + list(defines) + ['-DVP_NATIVE', '-O1', '-g', '-w', '-fno-strict-aliasing'] + san
     hd = _hdr_digest()
     jobs = []
